@@ -225,9 +225,9 @@ func C08(c *Ctx) *kf.Report {
 		aspect string
 		nc, ni int
 	}
-	cfgs := []cfg{{"sub", 2, 2}, {"sub", 3, 2}, {"sub", 2, 3}, {"dispatch", 4, 1}, {"like", 2, 1}}
+	cfgs := []cfg{{"sub", 2, 2}, {"sub", 3, 2}, {"sub", 2, 3}, {"sub", 1, 4}, {"dispatch", 4, 1}, {"like", 2, 1}}
 	if c.Thorough() {
-		cfgs = []cfg{{"sub", 3, 2}, {"sub", 3, 3}, {"sub", 4, 2}, {"dispatch", 5, 1}, {"like", 3, 1}}
+		cfgs = []cfg{{"sub", 3, 2}, {"sub", 3, 3}, {"sub", 4, 2}, {"sub", 2, 4}, {"dispatch", 5, 1}, {"like", 3, 1}}
 	}
 	nm := c08Names{c: "K" + string(rune('a'+c.Seed%26)), i: "J" + string(rune('a'+(c.Seed/26)%26))}
 	cases, queries := 0, 0
